@@ -78,10 +78,10 @@ CORE = [
     ("clone", "fresh"), ("clone", "collide"), ("clone", "collide-empty"), ("clone", "resave"), ("clone", "stray"),
     ("clone", "bak"),
     ("remove", "fresh"), ("remove", "nosp"), ("clear", "fresh"), ("clear", "stray"),
-    # Job.reset() = clear() + init(): judged by the oracle alone (the Lean model has the two halves, not the composite)
+    # Job.reset() = clear() + init(): the model's composite program resetProg (Prog.seq)
     ("reset", "fresh"), ("reset", "stray"),
 ]
-NO_MODEL_OPS = ("reset",)
+NO_MODEL_OPS = ()
 
 
 def make_scenario(op, variant, rng, events="all"):
@@ -404,6 +404,8 @@ def op_wire(scn, orders):
     order = refs_wire(orders.get(src, []))
     if op == "clone":
         return "clone 0 %s 1 %s" % (src[1], order)
+    if op == "reset":       # clear() followed by init(): the composite program of the model (resetProg)
+        return "reset 0 %s %s %s" % (src[1], enc_val(scn["sp"]), order)
     return "%s 0 %s %s" % (op, src[1], order)
 
 
@@ -750,7 +752,11 @@ LEVEL_TEXT = ("Proved in Lean for all pre-states, payloads and ALL event schedul
               "exactly one of the two directories, never touches a taken destination, and the new directory validates only "
               "with the complete new state point; move is all-or-nothing; remove/clear never make a directory validate that "
               "did not before and remove only shrinks the payload; a consumed fault always ends in an exception and leaves "
-              "the old job or a state check() reports (crash_safe, any_schedule_safe, fault_safe). For clone only "
+              "the old job or a state check() reports (crash_safe, any_schedule_safe, fault_safe). Job.reset() is the composite program "
+              "clear-then-init (Prog.seq, run_seq): under EVERY schedule clear() and reset() keep the job's directory and state point file "
+              "(clear_keeps_job, reset_keeps_job, reset_keeps_dir), touch no other job (reset_others_untouched), a consumed fault other than "
+              "ENOENT never ends in a normal return and a normal return is the event-free run (reset_fault_raises, reset_ok_means_done); "
+              "an implementation as remove-then-init is separated by a concrete schedule (remove_then_init_loses_job). For clone only "
               "clone_safe_partial is proved (source and taken destination untouched, error propagates, destination's "
               "state-point file is absent / junk / the source's, absent-or-reported until that file is completely copied); the "
               "full statement is proved FALSE of the model (S-11) and confirmed on the real code. The model is tied to the code "
